@@ -5,7 +5,7 @@ generated queries) runs on a memory database and on disk databases with several 
 a fresh runner process; outcome class and row multisets (sequence on ORDER BY keys) must agree."""
 import random
 
-from common import Report, Violation, parallel_map, h, run_sentinels
+from common import Report, Violation, parallel_map, h, run_sentinels, panic_site
 from gen import gen_schema, setup_statements, QueryGen, lit
 from model import gen_pred
 from sqlcase import RL, DISK_LAYOUTS, ms, ordered_equal
@@ -34,7 +34,8 @@ def run_case(args):
     seed, idx, nq, layouts = args
     rng = random.Random(f"c05-{seed}-{idx}")
     tables = gen_schema(rng, types=TYPES, pk_types=("INT", "BIGINT", "VARCHAR", "SMALLINT", "DATE"), max_cols=5, pk_p=0.6)
-    stmts = [(s, None) for s in setup_statements(rng, tables, max_rows=rng.choice([6, 12, 40]), max_stmts=5, wide_pk=True)]
+    uniq = random.Random(f"c05-uniq-{seed}-{idx}").random() >= 0.3
+    stmts = [(s, None) for s in setup_statements(rng, tables, max_rows=rng.choice([6, 12, 40]), max_stmts=5, wide_pk=True, unique_pk=uniq)]
     # identical (mocked) statistics on every engine: cost-based plan choice is C01's subject; here it
     # must not differ between the engines, so that only storage-specific planning and layout do
     for t in tables:
@@ -100,7 +101,7 @@ def execute(stmts, layouts):
                 break
             for name, o in outs[1:]:
                 if outcome(o) != outcome(ref):
-                    pan = (o.get("panics") or ref.get("panics") or [""])[0].split("|")[0]
+                    pan = panic_site((o.get("panics") or ref.get("panics"))[0]) if (o.get("panics") or ref.get("panics")) else ""
                     if not pan:
                         pan = err_class(o.get("err") or ref.get("err") or "")
                     res["violations"].append(dict(
